@@ -55,7 +55,8 @@ func (e EventJSONs) UntrustedEvents(roomVersion RoomVersion) []PDU {
 		event, err := verImpl.NewEventFromUntrustedJSON(js)
 		switch e := err.(type) {
 		case EventValidationError:
-			if !e.Persistable {
+			// A persistable error for the room ID comes without an event.
+			if !e.Persistable || event == nil {
 				continue
 			}
 		case nil:
